@@ -9,6 +9,8 @@ by multiplying the `r0 × r1` transfer matrix of the removed core into a neighbo
 `keptMask` says which positions survive, `expandIdx` re-inserts the index `(0,0)` at the removed
 positions, and `reduceDims_full` is the value theorem.  Helper names carry the prefix `rd_`.
 -/
+set_option linter.unusedSectionVars false
+
 namespace TT
 open Finset
 variable {α : Type} [CommRing α]
@@ -517,5 +519,676 @@ theorem reduceDims_ne_nil (excl : Nat → Bool) (cs : List (Core α)) (hne : cs 
       simpa using hc
     simp at hl; omega
   · simp [keptCount] at hl
+
+/-! ## `__getitem__`: the slicing loop -/
+
+/-- a selector whose position survives `reduce_dims(exclude)`: slices and `None` -/
+def Sel.keeps : Sel → Bool
+  | .int _ => false
+  | _ => true
+
+/-- the `exclude` list built by the loop: positions of slice and `None` selectors -/
+def exPos : Nat → List Sel → List Nat
+  | _, [] => []
+  | i, .int _ :: ss => exPos (i+1) ss
+  | i, _ :: ss => i :: exPos (i+1) ss
+
+/-- accumulator-free form of `getitemGo`; `r` is the right rank of the previous new core
+    (`cores_new[-1].shape[-1]`, or 1) -/
+def slicedCores : List Sel → List (Core α) → Nat → Option (List (Core α))
+  | [], [], _ => some []
+  | [], _ :: _, _ => Option.none
+  | .none :: ss, cs, r => (slicedCores ss cs r).map (fun t => eyeCore r :: t)
+  | _ :: _, [], _ => Option.none
+  | s :: ss, c :: cs, _ => (slicedCores ss cs c.r1).map (fun t => selRow c s :: t)
+
+/-- index of the original train addressed by index `ij` of the sliced train (one entry per
+    selector): `int k` reads `k`, `slice start step len` reads `start + step*i`, `None` positions
+    carry no original index -/
+def selIdx : List Sel → List (Nat × Nat) → List (Nat × Nat)
+  | .none :: ss, _ :: xs => selIdx ss xs
+  | .int k :: ss, x :: xs => (k, x.2) :: selIdx ss xs
+  | .slice s st _ :: ss, x :: xs => (s + st * x.1, x.2) :: selIdx ss xs
+  | _, _ => []
+
+/-- the same on tensor-style indices -/
+def selIdxT : List Sel → List Nat → List Nat
+  | .none :: ss, _ :: xs => selIdxT ss xs
+  | .int k :: ss, _ :: xs => k :: selIdxT ss xs
+  | .slice s st _ :: ss, x :: xs => (s + st * x) :: selIdxT ss xs
+  | _, _ => []
+
+/-- index of the original train addressed by index `ij` of the *result* of `x[sel]`
+    (one entry per slice / `None` selector) -/
+def getIdx : List Sel → List (Nat × Nat) → List (Nat × Nat)
+  | .int k :: ss, xs => (k, 0) :: getIdx ss xs
+  | .slice s st _ :: ss, x :: xs => (s + st * x.1, x.2) :: getIdx ss xs
+  | .none :: ss, _ :: xs => getIdx ss xs
+  | _, _ => []
+
+/-- row mode sizes after slicing, before `reduce_dims` -/
+def selShapeFull : List Sel → List Nat
+  | [] => []
+  | .int _ :: ss => 1 :: selShapeFull ss
+  | .slice _ _ len :: ss => len :: selShapeFull ss
+  | .none :: ss => 1 :: selShapeFull ss
+
+/-- the shape dense indexing gives: `len` per slice, 1 per `None`, nothing per integer -/
+def selShape : List Sel → List Nat
+  | [] => []
+  | .int _ :: ss => selShape ss
+  | .slice _ _ len :: ss => len :: selShape ss
+  | .none :: ss => 1 :: selShape ss
+
+/-- right rank of the head of the reversed accumulator -/
+def rd_lastR1 : List (Core α) → Nat
+  | last :: _ => last.r1
+  | [] => 1
+
+theorem rd_selRow_r1 (c : Core α) (s : Sel) : (selRow c s).r1 = c.r1 := by cases s <;> rfl
+theorem rd_selRow_r0 (c : Core α) (s : Sel) : (selRow c s).r0 = c.r0 := by cases s <;> rfl
+theorem rd_selRow_n (c : Core α) (s : Sel) : (selRow c s).n = c.n := by cases s <;> rfl
+
+/-- `getitemGo` = accumulator ++ `slicedCores`, exclude list = `exPos` -/
+theorem rd_getitemGo_eq (sel : List Sel) :
+    ∀ (cs : List (Core α)) (i : Nat) (acc : List (Core α)) (ex : List Nat),
+      getitemGo sel cs i acc ex
+        = (slicedCores sel cs (rd_lastR1 acc)).map
+            (fun t => (acc.reverse ++ t, ex.reverse ++ exPos i sel)) := by
+  induction sel with
+  | nil =>
+    intro cs i acc ex
+    cases cs <;> simp [getitemGo, slicedCores, exPos]
+  | cons s ss ih =>
+    intro cs i acc ex
+    cases s with
+    | none =>
+      simp only [getitemGo, slicedCores, exPos]
+      rw [ih]
+      cases acc <;> simp [rd_lastR1, eyeCore, Option.map_map, Function.comp_def]
+    | int k =>
+      cases cs with
+      | nil => simp [getitemGo, slicedCores]
+      | cons c cs =>
+        simp only [getitemGo, slicedCores, exPos]
+        rw [ih]
+        simp [rd_lastR1, rd_selRow_r1, Option.map_map, Function.comp_def]
+    | slice st sp len =>
+      cases cs with
+      | nil => simp [getitemGo, slicedCores]
+      | cons c cs =>
+        simp only [getitemGo, slicedCores, exPos]
+        rw [ih]
+        simp [rd_lastR1, rd_selRow_r1, Option.map_map, Function.comp_def]
+
+/-- an identity core is transparent -/
+theorem chain_eyeCore (r : Nat) (t : List (Core α)) (x : Nat × Nat) (xs : List (Nat × Nat))
+    (a b : Nat) (ha : a < r) :
+    chain ((eyeCore r : Core α) :: t) (x :: xs) a b = chain t xs a b := by
+  simp only [chain, eyeCore]
+  rw [sumTo_single a ha]
+  · simp
+  · intro k _ hk
+    have : ¬ (a = k) := fun h => hk h.symm
+    simp [this]
+
+/-- **value of the sliced train** (before `reduce_dims`), for an arbitrary left rank index -/
+theorem rd_chain_sliced (sel : List Sel) :
+    ∀ (cs t : List (Core α)) (r : Nat) (ij : List (Nat × Nat)) (a b : Nat),
+      slicedCores sel cs r = some t → ij.length = sel.length → a < r →
+      chain t ij a b = chain cs (selIdx sel ij) a b := by
+  induction sel with
+  | nil =>
+    intro cs t r ij a b h hij ha
+    cases cs with
+    | nil =>
+      simp only [slicedCores, Option.some.injEq] at h
+      subst h
+      cases ij <;> simp [chain]
+    | cons c cs => simp [slicedCores] at h
+  | cons s ss ih =>
+    intro cs t r ij a b h hij ha
+    match ij, hij with
+    | x :: xs, hij =>
+      have hxs : xs.length = ss.length := by simpa using hij
+      cases s with
+      | none =>
+        simp only [slicedCores, Option.map_eq_some_iff] at h
+        obtain ⟨t', ht', rfl⟩ := h
+        rw [chain_eyeCore r t' x xs a b ha]
+        simpa [selIdx] using ih cs t' r xs a b ht' hxs ha
+      | int k =>
+        cases cs with
+        | nil => simp [slicedCores] at h
+        | cons c cs =>
+          simp only [slicedCores, Option.map_eq_some_iff] at h
+          obtain ⟨t', ht', rfl⟩ := h
+          simp only [selIdx, chain, selRow]
+          apply sumTo_congr; intro l hl
+          rw [ih cs t' c.r1 xs l b ht' hxs hl]
+      | slice st sp len =>
+        cases cs with
+        | nil => simp [slicedCores] at h
+        | cons c cs =>
+          simp only [slicedCores, Option.map_eq_some_iff] at h
+          obtain ⟨t', ht', rfl⟩ := h
+          simp only [selIdx, chain, selRow]
+          apply sumTo_congr; intro l hl
+          rw [ih cs t' c.r1 xs l b ht' hxs hl]
+
+theorem rd_WF_sliced (sel : List Sel) :
+    ∀ (cs t : List (Core α)) (r : Nat),
+      slicedCores sel cs r = some t → WF cs r → WF t r := by
+  induction sel with
+  | nil =>
+    intro cs t r h hw
+    cases cs with
+    | nil => simp only [slicedCores, Option.some.injEq] at h; subst h; exact hw
+    | cons c cs => simp [slicedCores] at h
+  | cons s ss ih =>
+    intro cs t r h hw
+    cases s with
+    | none =>
+      simp only [slicedCores, Option.map_eq_some_iff] at h
+      obtain ⟨t', ht', rfl⟩ := h
+      exact ⟨rfl, ih cs t' r ht' hw⟩
+    | int k =>
+      cases cs with
+      | nil => simp [slicedCores] at h
+      | cons c cs =>
+        simp only [slicedCores, Option.map_eq_some_iff] at h
+        obtain ⟨t', ht', rfl⟩ := h
+        exact ⟨hw.1, ih cs t' c.r1 ht' hw.2⟩
+    | slice st sp len =>
+      cases cs with
+      | nil => simp [slicedCores] at h
+      | cons c cs =>
+        simp only [slicedCores, Option.map_eq_some_iff] at h
+        obtain ⟨t', ht', rfl⟩ := h
+        exact ⟨hw.1, ih cs t' c.r1 ht' hw.2⟩
+
+theorem rd_length_sliced (sel : List Sel) :
+    ∀ (cs t : List (Core α)) (r : Nat), slicedCores sel cs r = some t → t.length = sel.length := by
+  induction sel with
+  | nil =>
+    intro cs t r h
+    cases cs with
+    | nil => simp only [slicedCores, Option.some.injEq] at h; subst h; rfl
+    | cons c cs => simp [slicedCores] at h
+  | cons s ss ih =>
+    intro cs t r h
+    cases s with
+    | none =>
+      simp only [slicedCores, Option.map_eq_some_iff] at h
+      obtain ⟨t', ht', rfl⟩ := h
+      simp [ih cs t' r ht']
+    | int k =>
+      cases cs with
+      | nil => simp [slicedCores] at h
+      | cons c cs =>
+        simp only [slicedCores, Option.map_eq_some_iff] at h
+        obtain ⟨t', ht', rfl⟩ := h
+        simp [ih cs t' c.r1 ht']
+    | slice st sp len =>
+      cases cs with
+      | nil => simp [slicedCores] at h
+      | cons c cs =>
+        simp only [slicedCores, Option.map_eq_some_iff] at h
+        obtain ⟨t', ht', rfl⟩ := h
+        simp [ih cs t' c.r1 ht']
+
+/-- mode sizes of the sliced train of a TT-tensor -/
+theorem rd_modes_sliced (sel : List Sel) :
+    ∀ (cs t : List (Core α)) (r : Nat), slicedCores sel cs r = some t → IsTensor cs →
+      modes t = (selShapeFull sel).map (fun m => (m, 1)) := by
+  induction sel with
+  | nil =>
+    intro cs t r h _
+    cases cs with
+    | nil => simp only [slicedCores, Option.some.injEq] at h; subst h; rfl
+    | cons c cs => simp [slicedCores] at h
+  | cons s ss ih =>
+    intro cs t r h ht
+    cases s with
+    | none =>
+      simp only [slicedCores, Option.map_eq_some_iff] at h
+      obtain ⟨t', ht', rfl⟩ := h
+      simp [modes_cons, selShapeFull, eyeCore, ih cs t' r ht' ht]
+    | int k =>
+      cases cs with
+      | nil => simp [slicedCores] at h
+      | cons c cs =>
+        simp only [slicedCores, Option.map_eq_some_iff] at h
+        obtain ⟨t', ht', rfl⟩ := h
+        simp [modes_cons, selShapeFull, selRow, ih cs t' c.r1 ht' ht.2, ht.1]
+    | slice st sp len =>
+      cases cs with
+      | nil => simp [slicedCores] at h
+      | cons c cs =>
+        simp only [slicedCores, Option.map_eq_some_iff] at h
+        obtain ⟨t', ht', rfl⟩ := h
+        simp [modes_cons, selShapeFull, selRow, ih cs t' c.r1 ht' ht.2, ht.1]
+
+/-! ### the survival mask of `x[sel]` for a TT-tensor -/
+
+theorem rd_exPos_ge (sel : List Sel) : ∀ (i j : Nat), j ∈ exPos i sel → i ≤ j := by
+  induction sel with
+  | nil => intro i j h; simp [exPos] at h
+  | cons s ss ih =>
+    intro i j h
+    cases s with
+    | int k => have := ih (i+1) j (by simpa [exPos] using h); omega
+    | slice a b c =>
+      simp only [exPos, List.mem_cons] at h
+      rcases h with h | h
+      · omega
+      · have := ih (i+1) j h; omega
+    | none =>
+      simp only [exPos, List.mem_cons] at h
+      rcases h with h | h
+      · omega
+      · have := ih (i+1) j h; omega
+
+theorem rd_exPos_isEmpty (sel : List Sel) : ∀ (i : Nat),
+    (exPos i sel).isEmpty = !(sel.any Sel.keeps) := by
+  induction sel with
+  | nil => intro i; rfl
+  | cons s ss ih =>
+    intro i
+    cases s <;> simp [exPos, Sel.keeps, ih]
+
+/-- with `exclude` = the slice / `None` positions, exactly the integer positions are removable -/
+theorem rd_rawMask_sel (sel : List Sel) :
+    ∀ (i : Nat) (pre : List Nat), (∀ p ∈ pre, p < i) →
+      rawMask (fun j => (pre ++ exPos i sel).contains j) i
+          ((selShapeFull sel).map (fun m => (m, 1)))
+        = sel.map Sel.keeps := by
+  induction sel with
+  | nil => intro i pre _; rfl
+  | cons s ss ih =>
+    intro i pre hpre
+    cases s with
+    | int k =>
+      have hni : i ∉ pre ∧ i ∉ exPos (i+1) ss := by
+        constructor
+        · intro h; have := hpre i h; omega
+        · intro h; have := rd_exPos_ge ss (i+1) i h; omega
+      simp only [selShapeFull, List.map_cons, rawMask, exPos, Sel.keeps]
+      rw [ih (i+1) pre (fun p hp => by have := hpre p hp; omega)]
+      simp [keepB, removableB, hni]
+    | slice a b c =>
+      have hfun : (fun j => (pre ++ exPos i (Sel.slice a b c :: ss)).contains j)
+          = (fun j => ((pre ++ [i]) ++ exPos (i+1) ss).contains j) := by
+        funext j; simp [exPos]
+      rw [hfun]
+      simp only [selShapeFull, List.map_cons, rawMask, Sel.keeps]
+      rw [ih (i+1) (pre ++ [i]) (by
+        intro p hp
+        simp only [List.mem_append, List.mem_singleton] at hp
+        rcases hp with hp | hp
+        · have := hpre p hp; omega
+        · omega)]
+      simp [keepB, removableB]
+    | none =>
+      have hfun : (fun j => (pre ++ exPos i (Sel.none :: ss)).contains j)
+          = (fun j => ((pre ++ [i]) ++ exPos (i+1) ss).contains j) := by
+        funext j; simp [exPos]
+      rw [hfun]
+      simp only [selShapeFull, List.map_cons, rawMask, Sel.keeps]
+      rw [ih (i+1) (pre ++ [i]) (by
+        intro p hp
+        simp only [List.mem_append, List.mem_singleton] at hp
+        rcases hp with hp | hp
+        · have := hpre p hp; omega
+        · omega)]
+      simp [keepB, removableB]
+
+/-- survival mask of `x[sel]` on a TT-tensor: the slice / `None` positions; if every selector is
+    an integer, the last core survives (and is squeezed to a scalar by the caller) -/
+def selMask (sel : List Sel) : List Bool :=
+  if sel.any Sel.keeps then sel.map Sel.keeps else List.replicate (sel.length - 1) false ++ [true]
+
+theorem rd_length_selShapeFull (sel : List Sel) : (selShapeFull sel).length = sel.length := by
+  induction sel with
+  | nil => rfl
+  | cons s ss ih => cases s <;> simp [selShapeFull, ih]
+
+theorem keptMask_sliced (sel : List Sel) (cs t : List (Core α)) (r : Nat) (hne : sel ≠ [])
+    (h : slicedCores sel cs r = some t) (ht : IsTensor cs) :
+    keptMask (fun j => (exPos 0 sel).contains j) t = selMask sel := by
+  have hm := rd_modes_sliced sel cs t r h ht
+  have hraw := rd_rawMask_sel sel 0 [] (by simp)
+  simp only [List.nil_append] at hraw
+  have hne' : (selShapeFull sel).map (fun m => (m, 1)) ≠ [] := by
+    intro h0
+    have := congrArg List.length h0
+    simp [rd_length_selShapeFull] at this
+    exact hne this
+  rw [keptMask, keptMaskM, hm, rd_maskGo_eq _ _ hne' 0 false, hraw]
+  simp [selMask, rd_length_selShapeFull]
+
+/-! ### index bookkeeping -/
+
+theorem rd_selIdx_expand (sel : List Sel) : ∀ (ij : List (Nat × Nat)),
+    selIdx sel (expandIdx (sel.map Sel.keeps) ij) = getIdx sel ij := by
+  induction sel with
+  | nil => intro ij; cases ij <;> rfl
+  | cons s ss ih =>
+    intro ij
+    cases s with
+    | int k => simp [Sel.keeps, expandIdx, selIdx, getIdx, ih]
+    | slice a b c =>
+      cases ij with
+      | nil => simp [Sel.keeps, expandIdx, selIdx, getIdx]
+      | cons x xs => simp [Sel.keeps, expandIdx, selIdx, getIdx, ih]
+    | none =>
+      cases ij with
+      | nil => simp [Sel.keeps, expandIdx, selIdx, getIdx]
+      | cons x xs => simp [Sel.keeps, expandIdx, selIdx, getIdx, ih]
+
+theorem rd_selIdx_allInt (sel : List Sel) (hne : sel ≠ []) (hall : sel.any Sel.keeps = false)
+    (i : Nat) :
+    selIdx sel (expandIdx (List.replicate (sel.length - 1) false ++ [true]) [(i, 0)])
+      = getIdx sel [] := by
+  induction sel with
+  | nil => exact absurd rfl hne
+  | cons s ss ih =>
+    cases s with
+    | int k =>
+      cases ss with
+      | nil => simp [expandIdx, selIdx, getIdx]
+      | cons s' ss' =>
+        have hall' : (s' :: ss').any Sel.keeps = false := by simpa [Sel.keeps] using hall
+        have := ih (by simp) hall'
+        simp only [List.length_cons, Nat.add_sub_cancel] at this ⊢
+        simp only [List.replicate_succ, List.cons_append, expandIdx, selIdx, getIdx]
+        rw [this]
+    | slice a b c => simp [Sel.keeps] at hall
+    | none => simp [Sel.keeps] at hall
+
+theorem rd_selIdx_tIdx (sel : List Sel) : ∀ (is : List Nat),
+    selIdx sel (tIdx is) = tIdx (selIdxT sel is) := by
+  induction sel with
+  | nil => intro is; cases is <;> rfl
+  | cons s ss ih =>
+    intro is
+    cases is with
+    | nil => cases s <;> rfl
+    | cons x xs => cases s <;> simp [tIdx, selIdx, selIdxT] <;> simpa [tIdx] using ih xs
+
+theorem rd_keepBy_selShape (sel : List Sel) :
+    keepBy (sel.map Sel.keeps) (selShapeFull sel) = selShape sel := by
+  induction sel with
+  | nil => rfl
+  | cons s ss ih => cases s <;> simp [Sel.keeps, selShapeFull, selShape, keepBy, ih]
+
+theorem rd_selShapeFull_allInt (sel : List Sel) (hall : sel.any Sel.keeps = false) :
+    selShapeFull sel = List.replicate sel.length 1 := by
+  induction sel with
+  | nil => rfl
+  | cons s ss ih =>
+    cases s with
+    | int k =>
+      have : ss.any Sel.keeps = false := by simpa [Sel.keeps] using hall
+      simp [selShapeFull, ih this, List.replicate_succ]
+    | slice a b c => simp [Sel.keeps] at hall
+    | none => simp [Sel.keeps] at hall
+
+theorem rd_keepBy_last {β : Type} (n : Nat) (v : β) :
+    keepBy (List.replicate n false ++ [true]) (List.replicate (n+1) v) = [v] := by
+  induction n with
+  | zero => rfl
+  | succ n ih => simpa [List.replicate_succ, keepBy] using ih
+
+/-! ## `sum(index)`: partial sums -/
+
+/-- sum of `f` over the index pairs `(i, j) ∈ [0,m) × [0,n)` of the selected positions, the
+    other positions being read from `ij` (entries of `ij` at selected positions are ignored) -/
+def sumOver (sel : Nat → Bool) : Nat → List (Core α) → List (Nat × Nat) →
+    (List (Nat × Nat) → α) → α
+  | _, [], _, f => f []
+  | _, _ :: _, [], _ => 0
+  | p, c :: cs, x :: xs, f =>
+    if sel p then
+      sumTo c.m (fun i => sumTo c.n (fun j => sumOver sel (p+1) cs xs (fun r => f ((i, j) :: r))))
+    else sumOver sel (p+1) cs xs (fun r => f (x :: r))
+
+/-- positions that are not summed -/
+def unselMask {β : Type} (sel : Nat → Bool) : Nat → List β → List Bool
+  | _, [] => []
+  | p, _ :: cs => (!sel p) :: unselMask sel (p+1) cs
+
+theorem sumOver_sumTo (sel : Nat → Bool) (cs : List (Core α)) :
+    ∀ (p : Nat) (xs : List (Nat × Nat)) (n : Nat) (F : Nat → List (Nat × Nat) → α),
+      sumOver sel p cs xs (fun r => sumTo n (fun k => F k r))
+        = sumTo n (fun k => sumOver sel p cs xs (F k)) := by
+  induction cs with
+  | nil => intro p xs n F; rfl
+  | cons c cs ih =>
+    intro p xs n F
+    cases xs with
+    | nil => simp [sumOver, sumTo_zero']
+    | cons x xs =>
+      simp only [sumOver]
+      split_ifs
+      · simp only [ih]
+        conv_rhs => rw [sumTo_comm]
+        apply sumTo_congr; intro i _
+        rw [sumTo_comm]
+      · rw [ih]
+
+theorem sumOver_mul_left (sel : Nat → Bool) (cs : List (Core α)) :
+    ∀ (p : Nat) (xs : List (Nat × Nat)) (v : α) (f : List (Nat × Nat) → α),
+      sumOver sel p cs xs (fun r => v * f r) = v * sumOver sel p cs xs f := by
+  induction cs with
+  | nil => intro p xs v f; rfl
+  | cons c cs ih =>
+    intro p xs v f
+    cases xs with
+    | nil => simp [sumOver]
+    | cons x xs =>
+      simp only [sumOver]
+      split_ifs
+      · simp only [ih, sumTo_mul_left]
+      · rw [ih]
+
+theorem length_mapSel (f : Core α → Core α) (sel : Nat → Bool) (cs : List (Core α)) :
+    ∀ p, (mapSel f sel p cs).length = cs.length := by
+  induction cs with
+  | nil => intro p; rfl
+  | cons c cs ih => intro p; simp [mapSel, ih]
+
+/-- **summing the selected modes with `keepdim`** gives the partial sums of the transfer-matrix
+    products; the summed positions carry a dummy index -/
+theorem chain_mapSel_sumMode (sel : Nat → Bool) (cs : List (Core α)) :
+    ∀ (p : Nat) (ij : List (Nat × Nat)) (a b : Nat), ij.length = cs.length →
+      chain (mapSel sumModeCore sel p cs) ij a b
+        = sumOver sel p cs ij (fun r => chain cs r a b) := by
+  induction cs with
+  | nil => intro p ij a b _; simp [mapSel, sumOver, chain]
+  | cons c cs ih =>
+    intro p ij a b hij
+    match ij, hij with
+    | x :: xs, hij =>
+      have hxs : xs.length = cs.length := by simpa using hij
+      simp only [mapSel, sumOver, chain]
+      split_ifs with hs
+      · simp only [sumModeCore, ih (p+1) xs _ b hxs, sumOver_sumTo, sumOver_mul_left]
+        simp only [sumTo_eq_sum, Finset.sum_mul]
+        rw [Finset.sum_comm]
+        apply Finset.sum_congr rfl; intro i _
+        rw [Finset.sum_comm]
+      · simp only [ih (p+1) xs _ b hxs, sumOver_sumTo, sumOver_mul_left]
+
+theorem length_expandIdx (mask : List Bool) : ∀ (ij : List (Nat × Nat)),
+    ij.length = keptCount mask → (expandIdx mask ij).length = mask.length := by
+  induction mask with
+  | nil => intro ij _; rfl
+  | cons m ms ih =>
+    intro ij h
+    cases m with
+    | false =>
+      rw [keptCount_false] at h
+      simp [expandIdx, ih ij h]
+    | true =>
+      rw [keptCount_true] at h
+      match ij, h with
+      | x :: xs, h => simp [expandIdx, ih xs (by simpa using h)]
+
+/-- with `exclude` = the unsummed positions, exactly the summed positions are removable -/
+theorem rd_rawMask_sumSel (sel : Nat → Bool) (cs : List (Core α)) : ∀ (p : Nat),
+    rawMask (fun i => !sel i) p (modes (mapSel sumModeCore sel p cs)) = unselMask sel p cs := by
+  induction cs with
+  | nil => intro p; rfl
+  | cons c cs ih =>
+    intro p
+    simp only [mapSel, modes_cons, rawMask, unselMask, ih]
+    cases hs : sel p <;> simp [keepB, removableB, hs, sumModeCore]
+
+theorem length_unselMask {β : Type} (sel : Nat → Bool) (cs : List β) : ∀ p,
+    (unselMask sel p cs).length = cs.length := by
+  induction cs with
+  | nil => intro p; rfl
+  | cons c cs ih => intro p; simp [unselMask, ih]
+
+/-- survival mask of `x.sum(index)` -/
+theorem keptMask_sumSel (sel : Nat → Bool) (cs : List (Core α)) (hne : cs ≠ []) :
+    keptMask (fun i => !sel i) (mapSel sumModeCore sel 0 cs)
+      = if (unselMask sel 0 cs).any id = true then unselMask sel 0 cs
+        else List.replicate (cs.length - 1) false ++ [true] := by
+  have hne' : modes (mapSel sumModeCore sel 0 cs) ≠ [] := by
+    intro h0
+    have := congrArg List.length h0
+    simp [modes, length_mapSel] at this
+    exact hne this
+  rw [keptMask, keptMaskM, rd_maskGo_eq _ _ hne' 0 false, rd_rawMask_sumSel]
+  simp [modes, length_mapSel]
+
+/-! ### `sum()` over all modes -/
+
+theorem rd_vecSweep (cs : List (Core α)) :
+    ∀ (ij : List (Nat × Nat)) (r : Nat) (v : Nat → α), WF cs r → ij.length = cs.length →
+      vecSweep cs ij v 0 = sumTo r (fun a => v a * chain cs ij a 0) := by
+  induction cs with
+  | nil =>
+    intro ij r v hw _
+    have hr : r = 1 := hw
+    subst hr
+    simp [vecSweep, chain, sumTo]
+  | cons c cs ih =>
+    intro ij r v hw hij
+    match ij, hij with
+    | x :: xs, hij =>
+      have hxs : xs.length = cs.length := by simpa using hij
+      obtain ⟨h0, hw'⟩ := hw
+      subst h0
+      simp only [vecSweep, chain]
+      rw [ih xs c.r1 _ hw' hxs]
+      simp only [sumTo_eq_sum, Finset.sum_mul, Finset.mul_sum]
+      rw [Finset.sum_comm]
+      apply Finset.sum_congr rfl; intro l _
+      apply Finset.sum_congr rfl; intro k _
+      ring
+
+theorem rd_map_eq_mapSel (f : Core α → Core α) (cs : List (Core α)) : ∀ p,
+    cs.map f = mapSel f (fun _ => true) p cs := by
+  induction cs with
+  | nil => intro p; rfl
+  | cons c cs ih => intro p; simp [mapSel, ← ih (p+1)]
+
+theorem rd_WF_map_sumMode (cs : List (Core α)) : ∀ r, WF cs r → WF (cs.map sumModeCore) r := by
+  induction cs with
+  | nil => intro r h; exact h
+  | cons c cs ih => intro r h; exact ⟨h.1, ih c.r1 h.2⟩
+
+/-! ### glue lemmas used by the property files -/
+
+theorem rd_getitemGo_top (sel : List Sel) (cs cs' : List (Core α)) (ex : List Nat)
+    (h : getitemGo sel cs 0 [] [] = some (cs', ex)) :
+    slicedCores sel cs 1 = some cs' ∧ ex = exPos 0 sel := by
+  rw [rd_getitemGo_eq] at h
+  simp only [rd_lastR1, List.reverse_nil, List.nil_append, Option.map_eq_some_iff,
+    Prod.mk.injEq] at h
+  obtain ⟨t, ht, rfl, rfl⟩ := h
+  exact ⟨ht, rfl⟩
+
+theorem rd_getitem_some (sel : List Sel) (cs res : List (Core α)) (flag : Bool)
+    (h : getitem sel cs = some (res, flag)) :
+    ∃ t, getitemGo sel cs 0 [] [] = some (t, exPos 0 sel) ∧ slicedCores sel cs 1 = some t ∧
+      res = reduceDims (fun i => (exPos 0 sel).contains i) t ∧ flag = (exPos 0 sel).isEmpty := by
+  unfold getitem at h
+  split at h
+  · exact absurd h (by simp)
+  · rename_i cs' ex heq
+    obtain ⟨ht, hex⟩ := rd_getitemGo_top sel cs cs' ex heq
+    subst hex
+    simp only [Option.some.injEq, Prod.mk.injEq] at h
+    exact ⟨cs', heq, ht, h.1.symm, h.2.symm⟩
+
+/-- `getIdx` on tensor-style indices -/
+def getIdxT : List Sel → List Nat → List Nat
+  | .int k :: ss, xs => k :: getIdxT ss xs
+  | .slice s st _ :: ss, x :: xs => (s + st * x) :: getIdxT ss xs
+  | .none :: ss, _ :: xs => getIdxT ss xs
+  | _, _ => []
+
+theorem rd_getIdx_tIdx (sel : List Sel) : ∀ (is : List Nat),
+    getIdx sel (tIdx is) = tIdx (getIdxT sel is) := by
+  induction sel with
+  | nil => intro is; cases is <;> rfl
+  | cons s ss ih =>
+    intro is
+    cases s with
+    | int k => simpa [getIdx, getIdxT, tIdx] using ih is
+    | slice a b c =>
+      cases is with
+      | nil => rfl
+      | cons x xs => simpa [getIdx, getIdxT, tIdx] using ih xs
+    | none =>
+      cases is with
+      | nil => rfl
+      | cons x xs => simpa [getIdx, getIdxT, tIdx] using ih xs
+
+theorem keepBy_replicate {β : Type} (v : β) (mask : List Bool) :
+    keepBy mask (List.replicate mask.length v) = List.replicate (keptCount mask) v := by
+  induction mask with
+  | nil => rfl
+  | cons m ms ih =>
+    cases m
+    · simpa [List.replicate_succ, keepBy, keptCount_false] using ih
+    · simpa [List.replicate_succ, keepBy, keptCount_true] using ih
+
+/-- the unsummed cores are untouched by `mapSel` -/
+theorem rd_keepBy_unsel (f : Core α → Core α) (sel : Nat → Bool) (cs : List (Core α)) : ∀ p,
+    keepBy (unselMask sel p cs) (modes (mapSel f sel p cs)) = keepBy (unselMask sel p cs) (modes cs) := by
+  induction cs with
+  | nil => intro p; rfl
+  | cons c cs ih =>
+    intro p
+    cases hs : sel p <;> simp [unselMask, mapSel, modes_cons, keepBy, hs, ih]
+
+/-! ### when is `x[sel]` defined -/
+
+def Sel.isNone : Sel → Bool
+  | .none => true
+  | _ => false
+
+/-- the slicing loop succeeds iff the selectors other than `None` are as many as the cores -/
+theorem rd_sliced_isSome (sel : List Sel) : ∀ (cs : List (Core α)) (r : Nat),
+    (slicedCores sel cs r).isSome = true ↔ sel.countP (fun s => !s.isNone) = cs.length := by
+  induction sel with
+  | nil => intro cs r; cases cs <;> simp [slicedCores]
+  | cons s ss ih =>
+    intro cs r
+    cases s with
+    | none => simpa [slicedCores, Sel.isNone] using ih cs r
+    | int k =>
+      cases cs with
+      | nil => simp [slicedCores, Sel.isNone]
+      | cons c cs => simpa [slicedCores, Sel.isNone] using ih cs c.r1
+    | slice a b l =>
+      cases cs with
+      | nil => simp [slicedCores, Sel.isNone]
+      | cons c cs => simpa [slicedCores, Sel.isNone] using ih cs c.r1
 
 end TT
